@@ -351,6 +351,9 @@ def run(tier):
     chunk_completion(chk)
     authenticated_bytes(chk)
     mac_restart_sets_fill(chk)
+    # CCM and EAX run on the CTR+CBC-MAC primitives: their counter carry chains decide the ciphertext (shared with C12)
+    from .c12 import counter_carry_chains
+    counter_carry_chains(chk)
     chk.floor('obligations', len(chk.obls), 18)
     from .. import lints
     lints.length_is_boolean(chk, ['src/aead/'])
